@@ -202,9 +202,72 @@ def gen_C07(tier, seed, unit, nunits):
                 out.append(req(op, s, n, f, a, kk))
     return {'arith': out}
 
+SHIFT_TYPES = {'i8': (1, 8), 'i16': (1, 16), 'i32': (1, 32), 'i64': (1, 64), 'i128': (1, 128), 'isize': (1, 64),
+               'u8': (0, 8), 'u16': (0, 16), 'u32': (0, 32), 'u64': (0, 64), 'u128': (0, 128), 'usize': (0, 64)}
+BINVARS = ['vv', 'rv', 'vr', 'rr', 'av', 'ar']
+def wstep(rng, s, n, f, E, x_hint=None):
+    """one random Wrapping step (text), overflow-biased operands"""
+    lo, hi = G.rng_range(s, n)
+    def val():
+        r = rng.random()
+        if r < 0.3 and x_hint is not None:
+            t = rng.choice([hi, lo, hi + 1, lo - 1])
+            return G.clip(s, n, t - x_hint + rng.randint(-1, 1))
+        return G.rand_val(rng, s, n, f, E)
+    def small():
+        c = [0, 1, -1, 2, -2, 3, 7, 10, lo, hi] if s else [0, 1, 2, 3, 7, 10, hi]
+        return rng.choice(c) if rng.random() < 0.7 else G.rand_val(rng, s, n, 0, E)
+    k = rng.random()
+    if k < 0.30:
+        op = rng.choice(['add', 'sub', 'mul', 'div', 'rem', 'bitand', 'bitor', 'bitxor'])
+        return f'{op}.{rng.choice(BINVARS)}:{val()}'
+    if k < 0.42:
+        op = rng.choice(['mul_int', 'div_int', 'rem_int'])
+        return f'{op}.{rng.choice(BINVARS)}:{small()}'
+    if k < 0.50:
+        return rng.choice(['neg', 'neg.r', 'not', 'not.r'])
+    if k < 0.65:
+        ty = rng.choice(list(SHIFT_TYPES))
+        ts, tn = SHIFT_TYPES[ty]
+        tlo, thi = G.rng_range(ts, tn)
+        amt = rng.choice([0, 1, n - 1, n, n + 1, 2 * n, 2 * n + 3, -1, -n, tlo, thi, rng.randint(0, 300), rng.randint(tlo, thi)])
+        amt = min(max(amt, tlo), thi)
+        return f"{rng.choice(['shl', 'shr'])}.{rng.choice(BINVARS)}:{ty},{amt}"
+    if k < 0.78:
+        ms = ['ceil', 'floor', 'round', 'round_ties_to_even', 'int', 'frac', 'round_to_zero']
+        ms += ['abs', 'signum'] if s else ['next_power_of_two']
+        return rng.choice(ms)
+    if k < 0.83:
+        return f"{rng.choice(['rotate_left', 'rotate_right'])}:{rng.choice([0, 1, n - 1, n, n + 1, 3 * n + 2, rng.randint(0, 1000), 4294967295])}"
+    if k < 0.93:
+        op = rng.choice(['div_euclid', 'rem_euclid', 'div_euclid_int', 'rem_euclid_int'])
+        return f'{op}:{small() if op.endswith("_int") else val()}'
+    if k < 0.98:
+        op = rng.choice(['sum', 'sum.r', 'product', 'product.r'])
+        return f"{op}:{','.join(str(val()) for _ in range(rng.randint(0, 4)))}"
+    return rng.choice(['sum0', 'product0', 'product0.r', f'from_bits:{val()}'])
+
+def gen_C18(tier, seed, unit, nunits):
+    out = G.corpus('C18') if unit == 0 else []
+    for (s, n, f) in unit_layouts(G.typed_layouts(tier), unit, nunits):
+        rng = random.Random(f'{seed}/C18/{s}/{n}/{f}')
+        E = G.edges(s, n, f)
+        # every step kind once on edge operands (single-step programs), then random programs of length 1..12
+        for _ in range(scale(tier, 250, 4000)):
+            x = G.rand_val(rng, s, n, f, E)
+            out.append(f'wprog {s} {n} {f} {x} ' + wstep(rng, s, n, f, E, x))
+        for _ in range(scale(tier, 250, 6000)):
+            x = G.rand_val(rng, s, n, f, E)
+            steps = [wstep(rng, s, n, f, E, x if i == 0 else None) for i in range(rng.randint(2, 12))]
+            out.append(f'wprog {s} {n} {f} {x} ' + ' '.join(steps))
+    return {'wrap': out}
+
 PROPS = {
     'C01': dict(lean_modules=['SfxProps.C01'], bins=['arith'], profiles=['chk', 'rel'], gen=gen_C01, thorough_all_fracs=True),
     'C06': dict(lean_modules=['SfxProps.C06'], bins=['arith'], profiles=['chk', 'rel'], gen=gen_C06, thorough_all_fracs=True),
     'C07': dict(lean_modules=['SfxProps.C07'], bins=['arith'], profiles=['chk', 'rel'], gen=gen_C07, thorough_all_fracs=True),
+    'C18': dict(lean_modules=['SfxProps.C18'], bins=['wrap'], profiles=['chk', 'rel'], gen=gen_C18, thorough_all_fracs=True,
+                rule='programs of 1..12 Wrapping operations (every impl variant is a distinct step kind); de-duplicated per unit; '
+                     'non-trivial = some operand magnitude > 1; evaluations counts program x profile executions'),
     'C02': dict(lean_modules=['SfxProps.C02'], bins=['arith'], profiles=['chk', 'rel'], gen=gen_C02, thorough_all_fracs=True),
 }
